@@ -90,8 +90,12 @@ class OutputRecord:
 class EpicsAdapter:
     """An adapter interface for the EpicsIo."""
 
-    interrupt_records: Dict[InputRecord, Callable[[], Any]] = {}
+    interrupt_records: Dict[InputRecord, Callable[[], Any]]
     interrupt: RaiseInterrupt
+
+    def __init__(self) -> None:
+        # the records belong to this adapter (and so to its device) alone
+        self.interrupt_records = {}
 
     def link_input_on_interrupt(
         self, record: InputRecord, getter: Callable[[], Any]
